@@ -32,12 +32,12 @@ structure Valid : Prop where
 
 theorem lg_eq (j : Nat) : (processLogits w clip c n x mask kth σ).lg j =
     (topPStage n w c.topP σ (afterK clip c n x mask kth)).get j := by
-  simp only [processLogits, runStages_canonical]
+  simp only [processLogits, stLogSoftmax, runStages_canonical]
 
 theorem prob_eq (j : Nat) : (processLogits w clip c n x mask kth σ).prob j =
     wO w ((processLogits w clip c n x mask kth σ).lg j) /
       ∑ i ∈ range n, wO w ((processLogits w clip c n x mask kth σ).lg i) := by
-  simp only [processLogits, softmax_get]
+  simp only [processLogits, stLogSoftmax, softmax_get]
 
 /-- a kept entry is feasible and carries its own (clipped, tempered) logit -/
 theorem lg_some {j : Nat} {v : K} (h : (processLogits w clip c n x mask kth σ).lg j = some v) :
